@@ -36,9 +36,9 @@ def run(ctx, chk):
     chk.rule("K5", "stop/disable handlers perform the prescribed state change for every ring concerned (C11/T1)")
     chk.rule("K6", "every stop/disable is followed by the epoll update; a kick descriptor is unregistered before it is dropped (C11/T2)")
     chk.rule("K7", "the kick eventfd is consumed only on paths where the gate is true (C11/T4)")
-    chk.rule("K8", "the worker's epoll set is changed by the control path's registration update only (C11/T3 writers)")
+    chk.rule("K8", "the worker's epoll set is changed by the control path's registration update only, which adds a ring exactly when it is started and enabled and removes it otherwise (C11/T3)")
     c11.run_on(fb, Renamed(chk, {"T1": "K5", "T2": "K6", "T4": ("K7", lambda k: "consume-only-when-active" in k),
-                                 "T3": ("K8", lambda k: "writer" in k)}))
+                                 "T3": "K8"}))
     from . import xlist
     xlist.apply("C12", fb, chk)
     n = lambda r: len([i for i in chk.instances if i[0] == r])
